@@ -22,6 +22,8 @@ theorem safeByte_plain {c : Byte} (h : safeByte c = true) : Quote.posixPlain c.t
   unfold safeByte at h
   exact List.all_eq_true.mp hushSafe_plain c.toNat (by simpa using h)
 
+theorem safe_plainByte {c : Byte} (h : safeByte c = true) : plainByte c = true := safeByte_plain h
+
 theorem safe_ne_SP {c : Byte} (h : safeByte c = true) : (c == SP) = false :=
   Quote.byte_ne_of_toNat_ne (Quote.plain_facts (safeByte_plain h)).1
 theorem safe_ne_SQ {c : Byte} (h : safeByte c = true) : (c == SQ) = false :=
@@ -96,7 +98,7 @@ theorem wordAux_safe (s : Bytes) (hs : s.all safeByte = true) (w rest : Bytes) :
   | cons c cs ih =>
     simp only [List.all_cons, Bool.and_eq_true] at hs
     simp only [List.cons_append, wordAux, safe_printable hs.1, safe_ne_SP hs.1, safe_ne_SQ hs.1, safe_ne_DQ hs.1,
-      safe_ne_BS hs.1, hs.1, Bool.not_true, Bool.false_eq_true, if_false, if_true]
+      safe_ne_BS hs.1, safe_plainByte hs.1, Bool.not_true, Bool.false_eq_true, if_false, if_true]
     rw [ih hs.2]; simp
 
 /-- inside single quotes the text `spliceQuote (dblBackslash s)` is collected as `esc s` -/
@@ -221,7 +223,7 @@ theorem split_of_wordAux (l : Bytes) : ∀ (q : HS) (w x : Bytes) (t : Option By
               by_cases h4 : c == BS
               · simp only [h4, if_true] at h ⊢; exact ih _ _ _ _ _ h
               · simp only [h4, Bool.false_eq_true, if_false] at h ⊢
-                by_cases h5 : safeByte c
+                by_cases h5 : plainByte c
                 · simp only [h5, if_true] at h ⊢; exact ih _ _ _ _ _ h
                 · simp [h5] at h
       · simp [h0] at h
@@ -246,7 +248,7 @@ theorem split_of_wordAux (l : Bytes) : ∀ (q : HS) (w x : Bytes) (t : Option By
       by_cases h1 : c == DQ
       · simp only [h1, if_true] at h ⊢; exact ih _ _ _ _ _ h
       · simp only [h1, Bool.false_eq_true, if_false] at h ⊢
-        by_cases h2 : safeByte c
+        by_cases h2 : plainByte c
         · simp only [h2, if_true] at h ⊢; exact ih _ _ _ _ _ h
         · simp [h2] at h
 
